@@ -67,15 +67,21 @@ func (p *process) Invoke(msgs []Envelope) {
 		// bottom of the function it freezes some tests. Hence, I created a new counter
 		// for bookkeeping.
 		processed = 0
+		// the poison pill whose batch is being drained, if any.
+		draining *Envelope
 	)
 	defer func() {
 		// If we recovered, we buffer up all the messages that we could not process
 		// so we can retry them on the next restart.
 		if v := recover(); v != nil {
-			p.mbuffer = make([]Envelope, nmsg-nproc)
-			for i := 0; i < nmsg-nproc; i++ {
-				p.mbuffer[i] = msgs[i+nproc]
+			p.mbuffer = make([]Envelope, 0, nmsg-nproc+1)
+			if draining != nil {
+				// we crashed while draining for a poison pill: keep the pill in
+				// front of what is left, so the restarted receiver finishes the
+				// drain and stops.
+				p.mbuffer = append(p.mbuffer, *draining)
 			}
+			p.mbuffer = append(p.mbuffer, msgs[nproc:]...)
 			p.tryRestart(v)
 		}
 	}()
@@ -87,10 +93,13 @@ func (p *process) Invoke(msgs []Envelope) {
 			// If we need to gracefuly stop, we process all the messages
 			// from the inbox, otherwise we ignore and cleanup.
 			if pill.graceful {
-				msgsToProcess := msgs[processed:]
+				draining = &msgs[i]
+				msgsToProcess := msgs[i+1:]
 				for _, m := range msgsToProcess {
+					nproc++
 					p.invokeMsg(m)
 				}
+				draining = nil
 			}
 			p.cleanup(pill.cancel)
 			return
